@@ -137,7 +137,7 @@ def corpus_scripts():
 
 
 def skeleton_status():
-    body = ("From Coq Require Import List String.\nFrom RtrV Require Import Conc.RwLock Gen.LockSkeletons Conc.LockCheck Conc.Reload.\n"
+    body = ("From Coq Require Import List String.\nFrom RtrV Require Import Conc.RwLock Gen.LockSkeletons Conc.LockCheck.\n"
             "Local Open Scope string_scope.\n"
             "Eval vm_compute in (reload_skeleton_check, one_write_section \"pfx_table_swap\" \"a\", one_write_section \"spki_table_swap\" \"a\",\n"
             "  map (acquisitions \"a\") (paths_of \"pfx_table_swap\"), map (acquisitions \"a\") (paths_of \"spki_table_swap\"),\n"
